@@ -216,8 +216,8 @@ def search(run, info):
         if fail:
             run.violation("impl-violates-property", "%s %s: %s" % (cmd, " ".join(args), fail), {"scenario": desc, "observed": o})
             continue
-        if kind in ("files", "dir"):
-            by_set.setdefault((si, cmd), []).append((kind, args, o))
+        if kind in ("files", "dir", "dir-of-links"):
+            by_set.setdefault((si, cmd), []).append((kind, args, o, fsys))
         mo = model.get(str(i))
         if mo and len(mo) >= 2 and mo[0] not in ("bad-args", "unknown-op"):
             run.cov["traces_validated_against_impl"] += 1
@@ -238,14 +238,14 @@ def search(run, info):
     # a directory is the list of its files, and the argument order does not matter
     for (si, cmd), lst in by_set.items():
         ref = None
-        for kind, args, o in lst:
+        for kind, args, o, fsys in lst:
             key = (o["exit"], o["ok"], tuple(sorted(set(o["codes"]))) if cmd == "check" else bool(o["codes"]))
             if ref is None:
                 ref = (key, kind, args)
             elif key != ref[0]:
                 run.violation("impl-violates-property", "`%s` gives a different result for %s %r than for %s %r: %r vs %r" % (
                     cmd, kind, args, ref[1], ref[2], key, ref[0]),
-                    {"scenario": {"command": cmd, "args": args, "other_args": ref[2], "files": {n: POOL[c][0] for n, c in scenarios[0][1]["files"].items()}}})
+                    {"scenario": {"command": cmd, "args": args, "other_args": ref[2], "layout": kind, "files": {n: POOL[c][0] for n, c in fsys["files"].items()}}})
                 break
     return {"coverage": {
         "rule": "file sets of 1-4 files drawn from a pool (valid, lexical / syntax / semantic error, depends-on-other, undecodable, "
@@ -275,5 +275,16 @@ def replay(run, rep):
     for n in names[1:]:
         with open(os.path.join(root, "d2", n), "wb") as f:
             f.write(byname[sc["files"][n]])
+    os.makedirs(os.path.join(root, "dlink"), exist_ok=True)
+    for n in names:
+        lp = os.path.join(root, "dlink", n)
+        if not os.path.lexists(lp):
+            os.symlink(os.path.join("..", n), lp)
     o = run_bin(vlib.ironplcc_bin(), sc["command"], sc["args"], root)
-    return 1 if contract(sc["command"], o) else 0
+    if contract(sc["command"], o):
+        return 1
+    if sc.get("other_args") is not None:
+        o2 = run_bin(vlib.ironplcc_bin(), sc["command"], sc["other_args"], root)
+        k = lambda x: (x["exit"], x["ok"], tuple(sorted(set(x["codes"]))) if sc["command"] == "check" else bool(x["codes"]))
+        return 1 if k(o) != k(o2) else 0
+    return 0
